@@ -42,12 +42,22 @@ type link struct {
 
 func newLink(mode string, maxR, at int, onWrite func(raw []byte)) *link {
 	ack := time.Duration(at) * time.Second
-	if mode == "mem" {
+	if mode == "mem" || mode == "memset" {
 		u := conns.NewUDP(func(cfg *udpclient.Config) {
 			cfg.TransmissionAcknowledgeTimeout = ack
 			cfg.TransmissionMaxRetransmit = uint32(maxR)
 			cfg.TransmissionNStart = 1
+			if mode == "memset" { // created with other parameters; the ones of the history are set at run time (below)
+				cfg.TransmissionAcknowledgeTimeout = ack / 2
+				cfg.TransmissionMaxRetransmit = uint32(maxR) + 3
+				cfg.TransmissionNStart = 3
+			}
 		})
+		if mode == "memset" {
+			u.CC.Transmission().SetTransmissionAcknowledgeTimeout(ack)
+			u.CC.Transmission().SetTransmissionMaxRetransmit(uint32(maxR))
+			u.CC.Transmission().SetTransmissionNStart(1)
+		}
 		u.Sess.OnWrite = onWrite
 		return &link{mode: mode, cc: u.CC, inject: func(raw []byte) { _ = u.Inject(raw) }, out: func() [][]byte { return u.Sess.Out(0) },
 			settle: func() {}, close: u.Close, errs: u.Errs.Len, failNext: func(n int) { u.Sess.FailNext.Store(int64(n)) }}
